@@ -23,6 +23,7 @@ type Case struct {
 	Constrs []gen.PC     `json:"constrs,omitempty"`
 	Cost    *oracle.Cost `json:"cost,omitempty"` // nil = no cost function
 	Family  string       `json:"family,omitempty"`
+	CP      bool         `json:"cp,omitempty"` // the three solvers use the cutting-planes strategy
 }
 
 func lits(xs []int) []solver.Lit {
@@ -160,6 +161,8 @@ func check(c Case, o *vf.Obs) error {
 
 	// 1. Optimal(nil, nil)
 	s1 := solver.New(pb)
+	s1.CuttingPlanes = c.CP
+	o.ClassIf(c.CP, "cutting-planes")
 	r1 := s1.Optimal(nil, nil)
 	if err := validate("Optimal(nil)", r1.Status, r1.Model, r1.Weight); err != nil {
 		return err
@@ -167,6 +170,7 @@ func check(c Case, o *vf.Obs) error {
 	// 2. Optimal(chan, nil): producer here, consumer in a goroutine
 	pb2, _, _ := build(c)
 	s2 := solver.New(pb2)
+	s2.CuttingPlanes = c.CP
 	ch := make(chan solver.Result)
 	var stream []solver.Result
 	done := make(chan struct{})
@@ -196,6 +200,7 @@ func check(c Case, o *vf.Obs) error {
 	if !signed {
 		pb3, _, _ := build(c)
 		s3 := solver.New(pb3)
+		s3.CuttingPlanes = c.CP
 		got := s3.Minimize()
 		if !feasible {
 			if got != -1 {
@@ -214,6 +219,15 @@ func check(c Case, o *vf.Obs) error {
 }
 
 func genUniform(front string) func(t *rapid.T) Case {
+	inner := genUniform0(front)
+	return func(t *rapid.T) Case {
+		c := inner(t)
+		c.CP = gen.Chance(t, 1, 4, "cuttingPlanes")
+		return c
+	}
+}
+
+func genUniform0(front string) func(t *rapid.T) Case {
 	return func(t *rapid.T) Case {
 		c := Case{Front: front, Family: "uniform"}
 		switch front {
@@ -245,6 +259,12 @@ func genUniform(front string) func(t *rapid.T) Case {
 }
 
 func genCovering(t *rapid.T) Case {
+	c := genCovering0(t)
+	c.CP = gen.Chance(t, 1, 4, "cuttingPlanes")
+	return c
+}
+
+func genCovering0(t *rapid.T) Case {
 	switch rapid.IntRange(0, 3).Draw(t, "family") {
 	case 0, 1:
 		n, cls, cost := gen.VertexCover(t, 6, 14)
@@ -281,7 +301,7 @@ func min(a, b int) int {
 }
 
 func init() {
-	tail := "; oracle = brute-force minimum over all assignments; Optimal(nil), Optimal(chan) and (non-negative costs) Minimize+Model each on a fresh solver; non-trivial = result stream of length >=2, or optimum >0 with >=2 distinct feasible costs"
+	tail := "; a quarter of the cases under the cutting-planes strategy; oracle = brute-force minimum over all assignments; Optimal(nil), Optimal(chan) and (non-negative costs) Minimize+Model each on a fresh solver; non-trivial = result stream of length >=2, or optimum >0 with >=2 distinct feasible costs"
 	vf.Register(
 		vf.Sub[Case]{Name: "uniform-cnf", Quick: 6000, Thorough: 80000, Gen: genUniform("cnf"), Check: check, Floor: 0.07,
 			Rule: "random CNF (n<=10) with a cost function over distinct variables, either polarity, weights 0..9 or nil" + tail},
